@@ -97,6 +97,13 @@ CHECKS = {
         note="The read-only marking itself is not judged (mechanism, not property).",
         design="4 C16",
     ),
+    "C19": dict(
+        category="model_checking",
+        technique="explicit-state BFS over message histories driving the real forecaster and DerivationTree.append, compared state by state with a reference message-level language",
+        text="For ~440 (thorough ~1300) protocol grammars of operator depth <= 2 over message atoms <A:B:m1>, <B:A:m2>, <A:B:m3> (|, concatenation, ?, *, +, {2}, {1,2}, {2,}, {0,2}, nesting through intermediate symbols, recursion) every history reachable by mounting forecast options (every message type x every mounting path) up to 4 (thorough 6) messages is explored; in every state the predicted (sender, recipient, type) set must equal the letters that extend the history to a prefix of the reference language and complete_trees must be non-empty exactly for full interactions.",
+        note="Grammars with an empty-deriving body under */+ are excluded (the forecaster's history re-parse diverges: C06 finding). Slicing to a party subset is not yet covered. Two deviations are recorded known findings.",
+        design="4 C19",
+    ),
 }
 
 NOT_YET = {}
